@@ -1535,7 +1535,7 @@ where
             &self.state.events,
         );
 
-        let sub_valid = resp
+        let outcome = resp
             .respond(
                 &mut wb,
                 false,
@@ -1544,6 +1544,15 @@ where
                 |e, c, a| rctx.should_report_attr(e, c, a),
             )
             .await?;
+
+        if matches!(outcome, RespondOutcome::Empty) {
+            // Nothing the subscriber selected has changed, so nothing was sent.
+            // The subscriber did not hear from us: do not restart its min/max
+            // interval clocks as if it had.
+            rctx.set_not_sent();
+        }
+
+        let sub_valid = !matches!(outcome, RespondOutcome::Rejected);
 
         if !sub_valid {
             warn!(
@@ -1858,9 +1867,13 @@ where
     }
 }
 
+/// The outcome of answering a Read / Subscribe / Subscription report with `ReportData`.
 pub enum RespondOutcome {
+    /// The answer was sent and - if a response was expected - accepted by the peer
     Accepted,
+    /// The peer answered one of the `ReportData` messages with a non-success status
     Rejected,
+    /// There was nothing to report, and therefore nothing was sent to the peer
     Empty,
 }
 
@@ -1920,7 +1933,7 @@ where
         send_if_empty: bool,
         metadata: M,
         mut filter: F,
-    ) -> Result<bool, Error>
+    ) -> Result<RespondOutcome, Error>
     where
         M: Metadata,
         F: FnMut(EndptId, ClusterId, u32) -> bool,
@@ -1933,20 +1946,27 @@ where
             .report_attributes(wb, &mut empty, &metadata, &mut filter)
             .await?
         {
-            return Ok(false);
+            return Ok(RespondOutcome::Rejected);
         }
 
         if !self.report_events(wb, &mut empty, &metadata).await? {
-            return Ok(false);
+            return Ok(RespondOutcome::Rejected);
         }
 
         if send_if_empty || !empty {
-            self.send(ReportDataChunkState::Done, suppress_last_resp, wb)
-                .await
+            let accepted = self
+                .send(ReportDataChunkState::Done, suppress_last_resp, wb)
+                .await?;
+
+            Ok(if accepted {
+                RespondOutcome::Accepted
+            } else {
+                RespondOutcome::Rejected
+            })
         } else {
             debug!("No data to report, skipping sending ReportData response");
 
-            Ok(true)
+            Ok(RespondOutcome::Empty)
         }
     }
 
